@@ -269,9 +269,15 @@ def execute(scn):
                 break
             probe("state_checks")
     # final: exported module == class-style definition of the model's content
-    if not res["findings"] and target == "module" and not elaborated:
+    c18_clean = not res["findings"]
+    if target == "module" and not elaborated:
         try:
             pkg = h.to_proto(obj)
+            cv = netview.closed_violations(pkg, netview.prim_ports_table(), check_tools=False)
+            if cv:
+                res["findings"].append({"prop": "C06", "clause": "closed", "detail": cv[:3]})
+            if not c18_clean:
+                raise StopIteration
             edited = [m for m in pkg.modules if m.name.endswith("Edited")][0]
             body = {}
             for name, (vk, _val) in model.items():
@@ -284,9 +290,8 @@ def execute(scn):
                 fail("export-differs-from-class-style", f"edited: {canon_module(edited)} class-style: {canon_module(rmod)}")
             else:
                 probe("export_equals_class_style")
-            cv = netview.closed_violations(pkg, netview.prim_ports_table(), check_tools=False)
-            if cv:
-                res["findings"].append({"prop": "C06", "clause": "closed", "detail": cv[:3]})
+        except StopIteration:
+            pass
         except Exception as e:  # noqa
             probe("final_export_refused")
             res["final_exc"] = interp.norm_exc(e)
